@@ -4,7 +4,7 @@
 # / MISSED.  Evidence and replays written meanwhile are discarded.
 set -u
 cd /verif
-seeds=${@:-$(ls seeded | grep -E '^C[0-9]{2}[a-z]$')}
+seeds=${@:-$(ls seeded | grep -E '^(C[0-9]{2}[a-z]|G[0-9]+)$')}
 rm -rf /tmp/evidence_backup && cp -r evidence /tmp/evidence_backup
 for sd in $seeds; do
   pid=$(python3 -c "import json;print(json.load(open('seeded/$sd/meta.json'))['property'])")
